@@ -628,7 +628,32 @@ pub fn run_c06(ctx: &Ctx) -> Report {
         let nr = if ctx.miri { 2 } else { rng.range(1, 10) as usize };
         let big_case = i % 40 == 7;
         let cols: Vec<Column> = (0..nc).map(|c| simple_col(&format!("c{}", c), ColumnType::MYSQL_TYPE_VAR_STRING)).collect();
-        let mut ops = vec![QOp::Start(0)];
+        // a quarter of the cases: the resultset is the last member of a chain (completions, a
+        // zero-column set written through the row writer, another small rowset before it)
+        let mut ops = Vec::new();
+        let mut before = 0usize;
+        if rng.chance(1, 4) {
+            for _ in 0..rng.range(1, 3) {
+                match rng.below(3) {
+                    0 => ops.push(QOp::CompleteOne(rng.below(1000), rng.below(1000))),
+                    1 => {
+                        ops.push(QOp::Start(1));
+                        for _ in 0..rng.below(3) {
+                            ops.push(QOp::EndRow);
+                        }
+                        ops.push(QOp::FinishOne);
+                    }
+                    _ => {
+                        ops.push(QOp::Start(2));
+                        ops.push(QOp::Row(vec![Cell::val(V::I32(7))], RowForm::Owned));
+                        ops.push(QOp::FinishOne);
+                    }
+                }
+                before += 1;
+            }
+            rep.counters.inc("resultsets_at_the_end_of_a_chain");
+        }
+        ops.push(QOp::Start(0));
         let mut want: Vec<Vec<Sem>> = Vec::new();
         let mut cells_all: Vec<Cell> = Vec::new();
         for _ in 0..nr {
@@ -663,7 +688,7 @@ pub fn run_c06(ctx: &Ctx) -> Report {
         }
         ops.push(QOp::Finish);
         let cmds = vec![Cmd::query(b"q"), Cmd::ping()];
-        let scripts = vec![Script::Q(QProg { colsets: vec![cols], ops, on_err: OnErr::Drop })];
+        let scripts = vec![Script::Q(QProg { colsets: vec![cols, vec![], vec![simple_col("x", ColumnType::MYSQL_TYPE_LONG)]], ops, on_err: OnErr::Drop })];
         let obs = run_case(&varied_case(rng, cmds, scripts));
         rep.evaluations += 1;
         if harness_panic(&obs, rep) {
@@ -691,7 +716,11 @@ pub fn run_c06(ctx: &Ctx) -> Report {
             rep.violations.push(viol("C06", "C06 undecodable-response".into(), format!("text resultset does not decode: {:?}; outcome {}", dec.stop, obs.outcome.describe()), d()));
             return;
         };
-        let Some(Part::Rows { rows, end: RowsEnd::Eof(_), .. }) = parts.first() else {
+        if parts.len() != before + 1 {
+            rep.violations.push(viol("C06", "C06 chain-length".into(), format!("the response has {} parts, the shim wrote {} (the resultset with the values is the last one)", parts.len(), before + 1), d()));
+            return;
+        }
+        let Some(Part::Rows { rows, end: RowsEnd::Eof(_), .. }) = parts.last() else {
             rep.violations.push(viol("C06", "C06 not-a-resultset".into(), "response is not a resultset ending in EOF".into(), d()));
             return;
         };
